@@ -864,3 +864,74 @@ Proof.
   split; intros; cbn [env_map eqK eqKQ]; unfold eq_answer; cbn [C17_sc_adv sc_fk sc_adv N.eqb andb fst];
     destruct (adv_answer _ _ _); discriminate.
 Qed.
+
+Require Import Proofs.Spec Proofs.PureEq.
+
+(* ------------------------------------------------------------------------
+   A == that is DETERMINED BY ITS OPERANDS but is no equivalence (Proofs/PureEq.v,
+   [Related E ck cq R], R arbitrary): besides being safe (the any-environment
+   theorems above) every operation is still a pure function of the stored pairs
+   -- the first stored key k with R (class k) (class of the needle) decides.
+   [Lawful] is the special case R = equality of classes.
+   ------------------------------------------------------------------------ *)
+Theorem C17_lawful_is_related :
+  forall (K V Q T : Type) (E : env K V Q T) (ck : K -> N) (cq : Q -> N),
+    Lawful E ck cq -> Related E ck cq N.eqb.
+Proof. exact (fun K V Q T => @lawful_related K V Q T). Qed.
+Print Assumptions C17_lawful_is_related.
+
+Theorem C17_insert_any_relation :
+  forall (K V Q T : Type) (E : env K V Q T) (debug : bool) (ck : K -> N) (cq : Q -> N) (R : N -> N -> bool)
+         (HR : Related E ck cq R) (k : K) (v : V) (w : world K V T),
+    WF (self w) ->
+    wp (insert E debug k v)
+       (fun (r : option V) (w' : world K V T) =>
+          WF (self w') /\ cap (self w') = cap (self w) /\
+          match find_rel ck R (ck k) (Spec.elems (self w)) with
+          | Some i => exists k0 v0, nth_error (Spec.elems (self w)) i = Some (k0, v0) /\ R (ck k0) (ck k) = true /\
+                        r = Some v0 /\ Spec.elems (self w') = upd (Spec.elems (self w)) i (k0, v) /\
+                        logged w w' (ev_drops (idK E k))
+          | None => len (self w) < cap (self w) /\ r = None /\
+                    Spec.elems (self w') = Spec.elems (self w) ++ [(k, v)] /\ log w' = log w
+          end)
+       (fun w' : world K V T =>
+          self w' = self w /\ logged w w' (ev_drops (idV E v ++ idK E k)) /\
+          find_rel ck R (ck k) (Spec.elems (self w)) = None /\ len (self w) = cap (self w)) w.
+Proof. exact (fun K V Q T E debug ck cq R HR => insert_rel_cases E debug ck cq R HR). Qed.
+Print Assumptions C17_insert_any_relation.
+
+Theorem C17_remove_any_relation :
+  forall (K V Q T : Type) (E : env K V Q T) (debug : bool) (ck : K -> N) (cq : Q -> N) (R : N -> N -> bool)
+         (HR : Related E ck cq R) (q : Q) (w : world K V T),
+    WF (self w) ->
+    wp (remove E debug q)
+       (fun (r : option V) (w' : world K V T) =>
+          match find_rel ck R (cq q) (Spec.elems (self w)) with
+          | Some i => exists k0 v0, nth_error (Spec.elems (self w)) i = Some (k0, v0) /\ r = Some v0 /\
+                        WF (self w') /\ cap (self w') = cap (self w) /\
+                        Spec.elems (self w') = swap_remove (Spec.elems (self w)) i /\
+                        logged w w' (ev_drops (idK E k0))
+          | None => r = None /\ stable w w'
+          end)
+       (fun _ : world K V T => False) w.
+Proof. exact (fun K V Q T E debug ck cq R HR => remove_rel_cases E debug ck cq R HR). Qed.
+Print Assumptions C17_remove_any_relation.
+
+Theorem C17_contains_key_any_relation :
+  forall (K V Q T : Type) (E : env K V Q T) (ck : K -> N) (cq : Q -> N) (R : N -> N -> bool)
+         (HR : Related E ck cq R) (q : Q) (w : world K V T),
+    WF (self w) ->
+    wp (contains_key E q)
+       (fun (r : bool) (w' : world K V T) =>
+          stable w w' /\
+          r = match find_rel ck R (cq q) (Spec.elems (self w)) with Some _ => true | None => false end)
+       (fun _ : world K V T => False) w.
+Proof. exact (fun K V Q T E ck cq R HR => contains_key_rel E ck cq R HR). Qed.
+Print Assumptions C17_contains_key_any_relation.
+
+(* the interpreter's fifth kind of script is such an environment (R = "<=" on classes), for maps and sets *)
+Theorem C17_env_related :
+  forall sc : script, asym sc = true -> sc_fk sc = 0%N ->
+    Related (env_map sc) kcls qcls N.leb /\ Related (env_set sc) kcls qcls N.leb.
+Proof. exact (fun sc Ha Hf => conj (env_map_related sc Ha Hf) (env_set_related sc Ha Hf)). Qed.
+Print Assumptions C17_env_related.
